@@ -223,11 +223,12 @@ def returns_previous(f, role):
                 aliases.add(e["var"])
             elif not assigned:
                 saved = e["var"]
-        if e["e"] == "call" and e.get("op") == "=" and is_obj(e.get("recv")):
+        if (e["e"] == "call" and e.get("op") == "=" and is_obj(e.get("recv"))) or \
+                (e["e"] == "assign" and e.get("op") == "=" and is_obj(e.get("lhs"))):
             if saved is None:
-                return False, "reporter object overwritten before its old value was saved"
-            if "param" not in str(e.get("args")):
-                return False, "the reporter object is not assigned the parameter"
+                return False, "the object is overwritten before its old value was saved"
+            if "param" not in str(e.get("args") if e["e"] == "call" else e.get("rhs")):
+                return False, "the object is not assigned the parameter"
             assigned = True
     if saved is not None and assigned and x is not None and ("['var', %d," % saved) in str(x):
         return True, ""
